@@ -130,9 +130,18 @@ class Syllabifier(object):
             # their positions
             utt, index = self._remove_phone_separators(utt)
 
-            # estimate the syllable boundaries on the utterance
+            # estimate the syllable boundaries on the utterance and
+            # restore the phones separators as they were before
             try:
                 syllables = self._syllabify_utterance(utt, strip=strip)
+                try:
+                    syllables = self._restore_phone_separators(
+                        syllables, index, strip)
+                except IndexError:
+                    # a multi-character phone is cut by a syllable boundary
+                    raise RuntimeError(
+                        'syllable boundary found inside a phone in "{}"'
+                        .format(utt))
             except RuntimeError as err:
                 error = 'line {}, {}'.format(n+1, err)
                 if tolerant:
@@ -143,9 +152,6 @@ class Syllabifier(object):
                 else:
                     # fail with error
                     raise ValueError(error)
-
-            # restore the phones separators as they were before
-            syllables = self._restore_phone_separators(syllables, index, strip)
 
             syllabified_text.append(syllables)
 
